@@ -221,6 +221,55 @@ def rule_tlv_format(report, prog):
                      'src/nfc/tag/tt1.py', 'tt1 and tt2 disagree: %r vs %r' % (a, b))
 
 
+def rule_raw_capacity(report, prog, rule='C01-R3'):
+    """Type 1 / Type 2 get_capacity(): the count the TLV adjustment starts from is the number of addresses from the NDEF TLV to
+    the end of the data area that no Lock / Memory Control TLV reserves -- the statements in front of the adjustment are folded
+    by the checker for a grid of layouts (area size, TLV offset, reserved sets inside, at the very end, outside the area) and
+    compared with |[offset, end) - skip|.  A larger count lets the writer run past the data area or onto reserved bytes."""
+    grid = []
+    for size in (48, 64, 144, 496, 2040):
+        for off in (0, 5, 12):
+            for skip in (set(), {40, 41}, {size - 1}, {size + 8, size + 15}, {size + 16, size + 40}, {3, 4}, set(range(size - 4, size + 30))):
+                grid.append((size, off, skip))
+    for mod, end_of in (('nfc.tag.tt1', lambda p: p), ('nfc.tag.tt2', lambda p: p + 16)):
+        cap = prog.func(mod + '.get_capacity')
+        params = cap.params
+        if len(params) != 3:
+            raise AnalysisError('%s: %s.get_capacity signature changed' % (rule, mod))
+        body = live(cap.node.body)
+        adj = [i for i, s_ in enumerate(body) if isinstance(s_, ast.AugAssign) and norm(s_.target) == 'capacity']
+        if not adj:
+            raise AnalysisError('%s: %s.get_capacity: adjustment statement not found' % (rule, mod))
+        pre = body[:adj[0]]
+        bad = []
+        folded = 0
+        for size, o, skip in grid:
+            base = 16 if mod == 'nfc.tag.tt2' else 0
+            off = base + o
+            env = {params[0]: size, params[1]: off, params[2]: frozenset(skip)}
+            okk = True
+            for s_ in pre:
+                if isinstance(s_, ast.Assign) and len(s_.targets) == 1 and isinstance(s_.targets[0], ast.Name):
+                    v = try_const(s_.value, env, default=NotImplemented)
+                    if v is NotImplemented:
+                        okk = False
+                        break
+                    env[s_.targets[0].id] = v
+                else:
+                    okk = False
+                    break
+            if not okk or not isinstance(env.get('capacity'), int):
+                bad.append('cannot fold `%s`' % norm(s_)[:60])
+                break
+            folded += 1
+            want = len(set(range(off, end_of(size))) - skip)
+            if env['capacity'] != want:
+                bad.append('area size %d, NDEF TLV at %d, reserved %s: counted %d usable bytes, there are %d'
+                           % (size, off, sorted(skip)[:4], env['capacity'], want))
+        report.check(not bad, rule, key(mod, 'usable byte count = addresses from the TLV to the end of the data area minus reserved ones'), cap.loc(),
+                     '%s.get_capacity: %s' % (mod, '; '.join(bad[:2])), detail='%d layouts folded' % folded)
+
+
 def rule_partition(report, prog):
     n = 0
     # Type 3 read / write block batching
@@ -492,6 +541,7 @@ def run(report, prog, tier):
     rule_gate(report, prog)
     rule_unbound(report, prog)
     rule_tlv_format(report, prog)
+    rule_raw_capacity(report, prog)
     rule_partition(report, prog)
     rule_attr(report, prog)
     report.trusted += ['NFC Forum T1T/T2T: NDEF TLV with 1-byte length < 255 or FF + 16-bit big-endian length',
